@@ -51,3 +51,9 @@ package types
 //@ contract (Height).Increment
 //@   ensures isType(result, Height) && dyn(result, Height).RevisionNumber == h.RevisionNumber
 //@   ensures h.RevisionHeight + 1 < 18446744073709551616 ==> dyn(result, Height).RevisionHeight == h.RevisionHeight + 1
+
+//@ contract (Params).IsAllowedClient
+//@   abstract
+//@   pure
+//@   ensures listed_only: result ==> (len(p.AllowedClients) == 1 && p.AllowedClients[0] == AllowAllClients) || (exists j int :: 0 <= j && j < len(p.AllowedClients) && p.AllowedClients[j] == clientType)
+//@   ensures not_blank: clientType == "" ==> !result
